@@ -185,6 +185,9 @@ func resultNames(c *Contract, sig *types.Signature) []string {
 
 func (x *Exec) applyContract(f *frame, n *node, c *Contract, callee *ssa.Function, cc *ssa.CallCommon, args []Value, st *State, pos token.Pos, rt types.Type, site string) (Value, *State) {
 	sig := cc.Signature()
+	if cc.IsInvoke() {
+		x.oblige("nilcall", nil, st.pc, Ne(args[0].C[0], Num(0)), pos, "method call on a nil interface value")
+	}
 	pre := st.clone()
 	// requires
 	scPre := x.newSpecCtx(nil, nil, st, nil)
@@ -211,6 +214,10 @@ func (x *Exec) applyContract(f *frame, n *node, c *Contract, callee *ssa.Functio
 		v := FreshValue("ret."+shortKey(c.Key), sig.Results().At(i).Type())
 		x.assume(TTrue, WFValue(v), "type")
 		x.assume(TTrue, x.refsBelowClock(post, v), "clock")
+		if _, isIface := v.T.Underlying().(*types.Interface); isIface && c.Trusted {
+			// values produced by dependencies have dynamic types from outside the module
+			x.assume(TTrue, Lt(App("dyntype", SInt, v.C[0]), Num(0)), "external dynamic type")
+		}
 		res = append(res, v)
 	}
 	scPost := x.newSpecCtx(nil, nil, post, pre)
@@ -391,7 +398,7 @@ func (f *frame) runDefers(n *node, st *State) *State {
 				return s2
 			}
 			var fnVal *Value
-			if d.fn.C != nil && !cc.IsInvoke() {
+			if d.fn.C != nil && !cc.IsInvoke() && cc.StaticCallee() == nil {
 				fnVal = &d.fn
 			}
 			var rt types.Type = cc.Signature().Results()
@@ -555,6 +562,9 @@ func (x *Exec) copyBuiltin(st *State, d, s Value) Value {
 
 func (f *frame) invCtx(l *loopInfo, st *State, n *node) *specCtx {
 	sc := f.x.newSpecCtx(f, n, st, f.x.entryState)
+	for k, v := range f.loopLets[loopLetKey(l, n)] {
+		sc.vars[k] = v
+	}
 	sc.anchor = l.Head.Instrs[0].Pos()
 	if !sc.anchor.IsValid() {
 		for _, in := range l.Head.Instrs {
@@ -565,6 +575,34 @@ func (f *frame) invCtx(l *loopInfo, st *State, n *node) *specCtx {
 		}
 	}
 	return sc
+}
+
+func loopLetKey(l *loopInfo, n *node) string {
+	// the context up to and including this loop
+	var ctx []ctxEntry
+	for _, e := range n.Ctx {
+		ctx = append(ctx, e)
+		if e.L == l {
+			break
+		}
+	}
+	return fmt.Sprintf("%d@%s", l.Ordinal, ctxKey(ctx))
+}
+
+// bindLoopLets evaluates the loop's ghost lets in the state at loop entry.
+func (f *frame) bindLoopLets(l *loopInfo, st *State, n *node) {
+	if len(l.Spec.Lets) == 0 {
+		return
+	}
+	if f.loopLets == nil {
+		f.loopLets = map[string]map[string]Value{}
+	}
+	m := map[string]Value{}
+	f.loopLets[loopLetKey(l, n)] = m
+	for _, lt := range l.Spec.Lets {
+		sc := f.invCtx(l, st, n)
+		m[lt.Name] = sc.eval(lt.C.Expr)
+	}
 }
 
 func (f *frame) checkInvariants(l *loopInfo, st *State, kind string, n *node) {
@@ -638,6 +676,22 @@ func (f *frame) havocLoop(l *loopInfo, st *State, n *node) {
 						continue
 					}
 					key := CalleeKey(cc)
+					switch key {
+					case "errors.New", "fmt.Errorf", "errors.Join", "errors.Is", "fmt.Sprintf", "fmt.Sprint", "sync.(*Pool).Get":
+						continue
+					case "errors.As":
+						if mi, ok := cc.Args[1].(*ssa.MakeInterface); ok {
+							root, reg := f.storeTarget(mi.X)
+							if root != nil {
+								locals[root] = true
+							} else if reg != "" {
+								regions[reg] = true
+							} else {
+								all = true
+							}
+							continue
+						}
+					}
 					c := x.S.Contracts[key]
 					if c != nil && !c.Inline {
 						if c.Pure {
@@ -714,11 +768,13 @@ func (f *frame) storeTarget(addr ssa.Value) (*ssa.Alloc, string) {
 		if root != nil {
 			return root, ""
 		}
+		st := deref(a.X.Type()).Underlying().(*types.Struct)
+		fname := "." + st.Field(a.Field).Name()
 		if reg == "" {
 			// pointer from a register: region of the struct type
-			return nil, regionBase(deref(a.X.Type()))
+			return nil, regionBase(deref(a.X.Type())) + fname
 		}
-		return nil, reg
+		return nil, reg + fname
 	case *ssa.IndexAddr:
 		switch bt := a.X.Type().Underlying().(type) {
 		case *types.Slice:
@@ -727,8 +783,11 @@ func (f *frame) storeTarget(addr ssa.Value) (*ssa.Alloc, string) {
 			return nil, elemsBase(bt.Elem().Underlying().(*types.Array).Elem())
 		}
 	case *ssa.UnOp:
-		// *p where p loaded from somewhere: region by pointee type
+		// p loaded from somewhere: region by pointee type
 		if pt, ok := a.Type().Underlying().(*types.Pointer); ok {
+			if _, isStruct := pt.Elem().Underlying().(*types.Struct); isStruct {
+				return nil, regionBase(pt.Elem())
+			}
 			return nil, regionBase(pt.Elem())
 		}
 	case *ssa.Parameter, *ssa.FreeVar, *ssa.Call, *ssa.Extract, *ssa.Phi:
@@ -783,9 +842,11 @@ func (x *Exec) varargElems(st *State, v Value, n int) []*Term {
 }
 
 func (x *Exec) newError(st *State, wraps []*Term, kind string) *Term {
-	h := st.newRef()
-	x.assumeTrue(Eq(App("dyntype", SInt, h), Num(typeID(types.Typ[types.Invalid])+1000+int64(len(kind)))))
-	x.assumeNeed("Is", isAxiomAt(h, wraps))
+	r := st.newRef()
+	h := Fresh("err", SInt)
+	x.assume(st.pc, Eq(h, r), "fresh error")
+	x.assume(st.pc, Eq(App("dyntype", SInt, h), Num(-int64(len(kind)))), "fresh error")
+	x.assumeNeedPC(st.pc, "Is", isAxiomAt(h, wraps))
 	return h
 }
 
@@ -858,6 +919,23 @@ func (f *frame) intrinsic(key string, cc *ssa.CallCommon, args []Value, n *node,
 		old := x.load(st, tp)
 		x.store(st, tp, valueIte(ok, val, old))
 		return Value{C: []*Term{ok}}, true
+	case "sync.(*Pool).Get":
+		// the package's only pool holds *[bufSize]byte (New and every Put); content arbitrary
+		var at types.Type
+		for _, m := range x.P.Pkgs {
+			if m.Pkg.Path() == modPath {
+				at = types.NewArray(types.Typ[types.Uint8], 128)
+				if cst, ok := m.Members["bufSize"].(*ssa.NamedConst); ok {
+					n, _ := constant.Int64Val(cst.Value.Value)
+					at = types.NewArray(types.Typ[types.Uint8], n)
+				}
+			}
+		}
+		pt := types.NewPointer(at)
+		ref := st.newRef()
+		setElemArr(st, types.Typ[types.Uint8], Flatten(types.Typ[types.Uint8])[0], ref, Fresh("poolbuf", sArrII))
+		x.note("bufPool.Get modelled as a fresh *[bufSize]byte with arbitrary content")
+		return x.makeInterface(st, Value{T: pt, C: []*Term{ref}}, cc.Signature().Results().At(0).Type()), true
 	case "fmt.Sprintf", "fmt.Sprint":
 		v := FreshValue("sprintf", types.Typ[types.String])
 		x.assumeTrue(WFValue(v))
